@@ -78,7 +78,7 @@ Definition rgb_ok (W H : Z) (d : list Z) (pixc bckg : Z) (rgb : list Z) : bool :
    [sw] = reported string width, [lh] = reported line height, [sh] = horizontal size step.
    The metric box of width sw is centred in the active area: margins differ by at most one;
    all ink of the line lies in the box extended by one size step (C20's box). *)
-Definition no_lf (s : list Z) : bool := negb (existsb (Z.eqb 10) (range_bytes s)).
+Definition no_lf_str (s : list Z) : bool := negb (existsb (Z.eqb 10) (range_bytes s)).
 
 Definition ink_within (W H : Z) (d : list Z) (rlo rhi clo chi : Z) : bool :=
   all_cells (wib_of W) H (fun c r =>
@@ -95,7 +95,7 @@ Definition plain_mode (t : mtext) : bool :=
   end.
 
 Definition oneline_applies (t : mtext) (aw ah sw lh : Z) : bool :=
-  (x_fmt t =? 10) && plain_mode t && no_lf (x_title t) && (0 <=? sw) && (sw <=? aw) && (lh <=? ah).
+  (x_fmt t =? 10) && plain_mode t && no_lf_str (x_title t) && (0 <=? sw) && (sw <=? aw) && (lh <=? ah).
 Definition oneline_ok (t : mtext) (W H shrink border : Z) (d : list Z) (sw lh sh : Z) : bool :=
   let aw := active_w W shrink border in
   let ah := active_h H shrink border in
@@ -103,7 +103,7 @@ Definition oneline_ok (t : mtext) (W H shrink border : Z) (d : list Z) (sw lh sh
   let '(clo, chi) := centred_cols border aw sw sh in ink_within W H d 0 H clo chi.
 
 Definition twoline_applies (t : mtext) (aw ah sw1 sw2 lh : Z) : bool :=
-  (x_fmt t =? 11) && plain_mode t && no_lf (x_l1 t) && no_lf (x_l2 t)
+  (x_fmt t =? 11) && plain_mode t && no_lf_str (x_l1 t) && no_lf_str (x_l2 t)
   && (0 <=? sw1) && (sw1 <=? aw) && (0 <=? sw2) && (sw2 <=? aw) && (2 * lh <=? ah).
 (* line 1 lies above the middle row of the active area, line 2 from it downwards *)
 Definition twoline_ok (t : mtext) (W H shrink border : Z) (d : list Z) (sw1 sw2 lh sh : Z) : bool :=
